@@ -361,3 +361,4 @@ fn c11_streaminfo_reported_size() {
     assert!(si.bytes().map(|b| b.get()) == Some(34));
     assert!(si.total_size().map(|b| b.get()) == Some(38));
 }
+
